@@ -67,6 +67,12 @@ pub fn split_into_files(ch: &mut Choices, doc: &MOpDoc) -> FileSplit {
 
 /// `forced`: (fragment name, library index 1..=3) pairs whose home file is fixed
 pub fn split_into_files_forced(ch: &mut Choices, doc: &MOpDoc, forced: &[(String, usize)]) -> FileSplit {
+    split_into_files_opts(ch, doc, forced, true)
+}
+
+/// `may_move_operations = false` keeps every operation in the main file (for callers whose oracle speaks about
+/// one document, e.g. duplicate operation names)
+pub fn split_into_files_opts(ch: &mut Choices, doc: &MOpDoc, forced: &[(String, usize)], may_move_operations: bool) -> FileSplit {
     let frag_names: Vec<String> = doc.iter().filter_map(|d| if let MExecDef::Frag(f) = d { Some(f.name.clone()) } else { None }).collect();
     let has_ops = doc.iter().any(|d| matches!(d, MExecDef::Op(_)));
     // with fragments present: a single file in 1 of 5 cases, else 1-3 library files
@@ -95,9 +101,22 @@ pub fn split_into_files_forced(ch: &mut Choices, doc: &MOpDoc, forced: &[(String
     }
     let path_of = |i: usize| -> String { if i == 0 { "main.graphql".to_string() } else { LIB_PATHS[i - 1].to_string() } };
     let mut defs: Vec<MOpDoc> = vec![vec![]; k + 1];
+    // operations live in the main file, except that (one time in four) the operations after the first go to
+    // library files, ahead of the fragments there (an imported file may hold operations too; their names live
+    // in another name space than fragment names)
+    let spread_ops = may_move_operations && ch.chance(1, 4);
+    let mut n_ops = 0;
     for d in doc {
         match d {
-            MExecDef::Op(_) => defs[0].push(d.clone()),
+            MExecDef::Op(_) => {
+                n_ops += 1;
+                if spread_ops && n_ops > 1 {
+                    let h = 1 + ch.below(k);
+                    defs[h].insert(0, d.clone());
+                } else {
+                    defs[0].push(d.clone());
+                }
+            }
             MExecDef::Frag(f) => defs[home[&f.name]].push(d.clone()),
             // imports of the original document (none for generated ones) stay in the main file
             MExecDef::Import(_) => defs[0].push(d.clone()),
